@@ -24,6 +24,23 @@ type closeRec struct {
 	Returned bool
 }
 
+//go:norace
+func newCloseRec(e *Env, recs *[]*closeRec, who string, err error) *closeRec {
+	r := &closeRec{Who: who, Err: err, Task: -1, Inv: e.Sim.NextEv()}
+	if t := simrt.Me(); t != nil {
+		r.Task = t.ID
+	}
+	*recs = append(*recs, r)
+	return r
+}
+
+//go:norace
+func (r *closeRec) done(e *Env, active bool, ctxErr error) {
+	r.ActiveAfter, r.CtxErrAfter = active, ctxErr
+	r.Ret = e.Sim.NextEv()
+	r.Returned = true
+}
+
 type closeNowEvent struct{ err error }
 
 // Closer kinds.
@@ -49,16 +66,9 @@ func runC05(e *Env) {
 	var faultErrs []error
 	ch := netty.Channel(nil)
 	recClose := func(who string, err error, do func()) {
-		r := &closeRec{Who: who, Err: err, Task: -1, Inv: e.Sim.NextEv()}
-		if t := simrt.Me(); t != nil {
-			r.Task = t.ID
-		}
-		recs = append(recs, r)
+		r := newCloseRec(e, &recs, who, err)
 		do()
-		r.ActiveAfter = ch.IsActive()
-		r.CtxErrAfter = ch.Context().Err()
-		r.Ret = e.Sim.NextEv()
-		r.Returned = true
+		r.done(e, ch.IsActive(), ch.Context().Err())
 	}
 	var readCloseErr error
 	rig := e.NewBRig(cc, useHolder, e.P(3) == 2, func(c netty.Channel, p *Probe) []netty.Handler {
